@@ -906,6 +906,12 @@ func (h *hist) queryNN() {
 				p.Y = math.Max(-63.9*h.sy, math.Min(63.9*h.sy, p.Y))
 			}
 		}
+		if math.IsNaN(p.X) || math.IsNaN(p.Y) || math.IsInf(p.X, 0) || math.IsInf(p.Y, 0) {
+			// (the arithmetic that places a query next to a loose node box can overflow on the
+			// grids at the end of the float64 range: not a query point)
+			c.Count("nn.skipped_non_finite_query_point")
+			continue
+		}
 		c.Count("nn." + cat)
 		dists := make([]float64, size)
 		for i, s := range h.model {
